@@ -95,6 +95,17 @@ func (f *c15FedClient) SendJoin(ctx context.Context, origin, s spec.ServerName, 
 	if f.s.SendJoin == "err" {
 		return nil, errC15Querier
 	}
+	if f.s.Remote == "echo" || f.s.Remote == "echo_unsigned" {
+		// what a resident server does: the event it was sent, with its own signature added
+		// (a copy: Sign writes into its receiver)
+		if cp, err := gmsl.MustGetRoomVersion(event.Version()).NewEventFromTrustedJSON(append([]byte{}, event.JSON()...), false); err == nil {
+			if f.s.Remote == "echo" {
+				_, rsk := c15Key("remote")
+				cp = cp.Sign("remote", c15KeyID, rsk)
+			}
+			f.sendResp.event = cp.JSON()
+		}
+	}
 	return f.sendResp, nil
 }
 
@@ -134,7 +145,7 @@ func c15PerformJoin(args [][]byte) ([][]byte, []byte) {
 	room := &c15RemoteRoom{ver: roomVer}
 	createContent := c15Obj{"creator": creator, "room_version": s.RoomVer}
 	switch s.Auth {
-	case "create_unknown_version":
+	case "create_unknown_version", "other_room_create_then_unknown":
 		createContent["room_version"] = "9999"
 	case "create_no_version":
 		delete(createContent, "room_version")
@@ -227,6 +238,15 @@ func c15PerformJoin(args [][]byte) ([][]byte, []byte) {
 		decoy := c15Build(roomVer, gmsl.ProtoEvent{SenderID: creator, RoomID: c15ReqRoom, Type: spec.MRoomCreate, StateKey: &k, Depth: 1,
 			Content: spec.RawJSON(`{"room_version":"9999"}`)}, "remote", "remote")
 		authJSON = append(gmsl.EventJSONs{decoy.JSON()}, authJSON...)
+	case "other_room_create_then_good", "other_room_create_then_unknown", "other_room_create_only":
+		// a create event of ANOTHER room (of a known version) in front of the auth chain
+		other := c15Build(roomVer, gmsl.ProtoEvent{SenderID: creator, RoomID: c15OtherRoom, Type: spec.MRoomCreate, StateKey: &empty, Depth: 1,
+			Content: c15JSON(c15Obj{"creator": creator, "room_version": s.RoomVer})}, "remote", "remote")
+		if s.Auth == "other_room_create_only" {
+			authJSON = append(gmsl.EventJSONs{other.JSON()}, authJSON[1:]...)
+		} else {
+			authJSON = append(gmsl.EventJSONs{other.JSON()}, authJSON...)
+		}
 	case "unknown_then_good":
 		first := c15Build(roomVer, gmsl.ProtoEvent{SenderID: creator, RoomID: c15ReqRoom, Type: spec.MRoomCreate, StateKey: &empty, Depth: 1,
 			Content: spec.RawJSON(`{"room_version":"9999"}`)}, "remote", "remote")
@@ -347,7 +367,7 @@ func c15PerformJoin(args [][]byte) ([][]byte, []byte) {
 	}
 	cfg["build_ok"] = buildOK
 	if len(sj.event) > 0 {
-		r := c15Obj{"parse_ok": false, "membership": "err", "room_id": "", "state_key": nil}
+		r := c15Obj{"parse_ok": false, "membership": "err", "room_id": "", "state_key": nil, "same_event": false}
 		if verErr == nil {
 			if ev, err := gmsl.MustGetRoomVersion(effVer).NewEventFromUntrustedJSON(sj.event); err == nil {
 				r["parse_ok"] = true
@@ -356,6 +376,8 @@ func c15PerformJoin(args [][]byte) ([][]byte, []byte) {
 				}
 				r["room_id"] = ev.RoomID().String()
 				r["state_key"] = c15StrPtr(ev.StateKey())
+				// is it the event PerformJoin sent?
+				r["same_event"] = fc.sent != nil && ev.EventID() == fc.sent.EventID()
 			}
 		}
 		cfg["remote"] = r
@@ -367,7 +389,8 @@ func c15PerformJoin(args [][]byte) ([][]byte, []byte) {
 				Version string `json:"room_version"`
 			}
 			uerr := json.Unmarshal(ev.Content(), &body)
-			auths = append(auths, c15Obj{"type": ev.Type(), "state_key": c15StrPtr(ev.StateKey()), "content_ok": uerr == nil, "room_version": body.Version})
+			auths = append(auths, c15Obj{"type": ev.Type(), "state_key": c15StrPtr(ev.StateKey()), "content_ok": uerr == nil, "room_version": body.Version,
+				"room_ok": ev.RoomID().String() == c15ReqRoom})
 		}
 	}
 	cfg["auth_events"] = auths
@@ -403,7 +426,13 @@ func c15PerformJoin(args [][]byte) ([][]byte, []byte) {
 	} else if res == nil || res.JoinEvent == nil {
 		out = "joined without an event"
 	} else {
-		used := remoteEv != nil && res.JoinEvent.EventID() == remoteEv.EventID() && string(res.JoinEvent.JSON()) == string(remoteEv.JSON())
+		// did the remote's copy come back? (read off the response, whoever built that copy)
+		used := false
+		if len(sj.event) > 0 && verErr == nil {
+			if rc, rerr := gmsl.MustGetRoomVersion(effVer).NewEventFromUntrustedJSON(sj.event); rerr == nil {
+				used = res.JoinEvent.EventID() == rc.EventID() && string(res.JoinEvent.JSON()) == string(rc.JSON())
+			}
+		}
 		out = "joined remote_event_used=" + c15Bit(used)
 		// the join that comes back is a join of this user in this room
 		m, _ := res.JoinEvent.Membership()
@@ -437,7 +466,7 @@ func init() {
 
 func genC15Perform(c *Ctx) {
 	good := func() c15PJScen {
-		return c15PJScen{MakeJoin: "ok", RespVer: "10", AuthShape: "strings", RoomVer: "10", SendJoin: "ok", Remote: "good", Auth: "good", StateFault: "none"}
+		return c15PJScen{MakeJoin: "ok", RespVer: "10", AuthShape: "strings", RoomVer: "10", SendJoin: "ok", Remote: "echo", Auth: "good", StateFault: "none"}
 	}
 	type mut struct {
 		name string
@@ -469,6 +498,11 @@ func genC15Perform(c *Ctx) {
 		{"create room_version twice, unknown last", func(s *c15PJScen) { s.Auth = "create_dup_version_unknown_last" }},
 		{"remote event a join its auth events do not allow", func(s *c15PJScen) { s.Remote = "unauthorised_join" }},
 		{"remote event a join without rules in its auth events", func(s *c15PJScen) { s.Remote = "join_by_banned_state" }},
+		{"remote answers with another join of the user", func(s *c15PJScen) { s.Remote = "good" }},
+		{"remote echoes the event without signing", func(s *c15PJScen) { s.Remote = "echo_unsigned" }},
+		{"create of another room first, then the room's", func(s *c15PJScen) { s.Auth = "other_room_create_then_good" }},
+		{"create of another room first, the room's of unknown version", func(s *c15PJScen) { s.Auth = "other_room_create_then_unknown" }},
+		{"create of another room only", func(s *c15PJScen) { s.Auth = "other_room_create_only" }},
 		{"no remote event", func(s *c15PJScen) { s.Remote = "none" }},
 		{"remote event garbage", func(s *c15PJScen) { s.Remote = "garbage" }},
 		{"remote event a leave", func(s *c15PJScen) { s.Remote = "leave" }},
